@@ -3,7 +3,8 @@
 From stdpp Require Import gmap strings.
 From Coq Require Import NArith.
 From SV Require Import CfgState.Model CfgState.Spec CfgState.Gen CfgState.GenSteps CfgState.DiffProofs CfgState.DiffApply
-  CfgState.ReplayBuckets CfgState.DiffChunks CfgState.DiffClusters CfgState.DiffAbs CfgState.DiffCerts CfgState.DiffCompose.
+  CfgState.ReplayBuckets CfgState.DiffChunks CfgState.DiffClusters CfgState.DiffAbs CfgState.DiffCerts CfgState.DiffCompose
+  CfgState.InvRProofs CfgState.DiffBuckets CfgState.DiffTFronts CfgState.DiffBackends.
 Open Scope N_scope.
 
 (** [DiffMap] (the merge-join used for clusters and backends) is sound and
@@ -48,30 +49,55 @@ Qed.
 Theorem diff_same_empty : forall a, diff a a = [].
 Proof. exact DiffProofs.diff_same_empty. Qed.
 
-(** Full statement of C06 on the model:
-      apply_diff : InvR A -> InvR B ->
-        exists Z, replay (diff A B) A = (Z, 0) /\ norm_set Z = norm_set B.
-    PROVED, section by section (each for ANY state holding the section's map,
-    so the sections compose in the order of [diff]):
-      - listeners, all four kinds: removed (Deactivate? + Remove), added
-        (Add + Activate?), present on both sides (Remove + Add inactive +
-        Activate? + Deactivate?), late re-activation   [apply_diff_listeners]
-      - clusters: the merge-join composed with add_cluster / remove_cluster
-        (Removed -> accepted removal, Added/Changed -> accepted upsert that
-        lands on the target)                             [apply_diff_clusters]
-      - http and https frontends                         [apply_diff_fronts]
-      - certificates (by value; modulo empty buckets)    [apply_diff_certs]
-    and COMPOSED over the whole section order [apply_diff_sections]: for A, B
-    satisfying the reachable-state invariant whose backends and tcp/udp
-    frontends agree, every request of diff(A,B) is accepted by an instance
-    holding A, which then holds B modulo empty buckets.
-    NOT PROVED (correspondence runs only): the backends section (merge-join on
-    (cluster,id,address) composed with the sorted upsert) and the tcp/udp
-    frontend sections (set semantics of the buckets).
-    The composition needs NO cross-section precondition: ConfigState checks no
-    reference between maps (a frontend may name a missing cluster or listener),
-    so on ConfigState the order of the sections is irrelevant for acceptance;
-    it matters only for the live proxies of a worker (C08). *)
+(** C06 at full strength on the model.  For any two configurations reachable
+    by any command histories (every verb, valid or not; any behaviour of the
+    certificate parser, the validators and the patch handlers), every request of
+    diff(A,B) is accepted by an instance holding A, and that instance then
+    holds B: all eleven maps, modulo empty buckets and the order inside
+    tcp/udp frontend buckets ([norm_set]; the Vec order after a diff follows
+    hash-set iteration and is not observable through routing, hash_state or
+    any replay path). *)
+Theorem apply_diff :
+  forall fingerprint inames hc_valid steps A B,
+    reachable fingerprint inames hc_valid steps A -> reachable fingerprint inames hc_valid steps B ->
+    exists Z, replay fingerprint inames hc_valid steps (diff A B) A = (Z, 0%nat) /\ norm_set Z = norm_set B.
+Proof.
+  intros fp nm hc st A B HA HB. apply DiffCompose.apply_diff; apply (reachable_InvR fp nm hc st); assumption.
+Qed.
+
+(** the same from the invariant alone (what a state loaded from anywhere must satisfy) *)
+Theorem apply_diff_inv :
+  forall fingerprint inames hc_valid steps A B,
+    InvR fingerprint inames hc_valid A -> InvR fingerprint inames hc_valid B ->
+    exists Z, replay fingerprint inames hc_valid steps (diff A B) A = (Z, 0%nat) /\ norm_set Z = norm_set B.
+Proof. intros. apply DiffCompose.apply_diff; assumption. Qed.
+
+(** The proof is section by section, each for ANY state holding the section's
+    map, so the sections compose in the order of [diff]; the composition needs
+    NO cross-section precondition: ConfigState checks no reference between maps
+    (a frontend may name a missing cluster or listener), so on ConfigState the
+    order of the sections is irrelevant for acceptance; it matters only for the
+    live proxies of a worker (C08).  The sections: *)
+Theorem apply_diff_backends :
+  forall fingerprint inames hc_valid steps my other s,
+    bIv my -> bIv other -> backends s = my ->
+    exists c', replay fingerprint inames hc_valid steps (diff_backends my other) s = (set_backends s c', 0%nat)
+               /\ drop_empty c' = drop_empty other.
+Proof.
+  intros fp nm hc st my other s Hm Ho Hs.
+  destruct (piece_backends fp nm hc st my other Hm Ho s Hs) as (c' & Hr & Hi & Ha). exists c'. split; [exact Hr|apply babs_norm; assumption].
+Qed.
+
+Theorem apply_diff_tfronts :
+  forall fingerprint inames hc_valid steps udp my other s,
+    tIv my -> tIv other -> get_t udp s = my ->
+    exists c', replay fingerprint inames hc_valid steps (diff_tfronts udp my other) s = (set_t udp s c', 0%nat)
+               /\ isort tf_le <$> drop_empty c' = isort tf_le <$> drop_empty other.
+Proof.
+  intros fp nm hc st udp my other s Hm Ho Hs.
+  destruct (piece_tfronts fp nm hc st udp my other s Hs Hm Ho) as (c' & Hr & Hi & Ha). exists c'. split; [exact Hr|apply tabs_norm_set; assumption].
+Qed.
+
 Theorem apply_diff_listeners :
   forall fingerprint inames hc_valid steps k my other s,
     get_l k s = my ->
@@ -108,13 +134,6 @@ Proof.
   intros fp nm hc st my other s Hmy Hok.
   destruct (piece_certs fp nm hc st my other s Hmy Hok) as (c' & Hr & Hc). exists c'. split; [exact Hr|apply cabs_norm; exact Hc].
 Qed.
-
-Theorem apply_diff_sections :
-  forall fingerprint inames hc_valid steps A B,
-    InvR fingerprint inames hc_valid A -> InvR fingerprint inames hc_valid B ->
-    backends B = backends A -> tcp_f B = tcp_f A -> udp_f B = udp_f A ->
-    exists Z, replay fingerprint inames hc_valid steps (diff A B) A = (Z, 0%nat) /\ norm Z = norm B.
-Proof. intros. apply DiffCompose.apply_diff_sections; assumption. Qed.
 
 Theorem apply_diff_fronts :
   forall fingerprint inames hc_valid steps tls my other s,
